@@ -33,6 +33,17 @@ type Shape struct {
 	Ts      string `json:"ts"`
 	Owner   string `json:"owner"`
 	Size    string `json:"size"`
+	Txt     string `json:"txt"`
+	Tv      int    `json:"tv"`
+}
+
+// special texts: scalars that a text format (YAML) gives a meaning of its own to
+var specialTexts = map[string][]string{
+	"null":   {"~", "null", "Null", "NULL"},
+	"bool":   {"true", "no", "on", "Y"},
+	"num":    {"1", "0x1f", "1e3", ".5"},
+	"struct": {"- a", "a: b", "[x]", "#c"},
+	"blank":  {" lead", "trail ", "a\nb", ""},
 }
 
 type Input struct {
@@ -66,6 +77,24 @@ func concretise(s Shape) resource.Resource {
 
 	for i := range s.Nann {
 		r.Metadata().Annotations().Set(fmt.Sprintf("ann%d", i), "x")
+	}
+
+	if txts, ok := specialTexts[s.Txt]; ok {
+		// the special text everywhere a metadata string can be: id, owner, a finalizer, a label value, an annotation value
+		txt := txts[s.Tv%len(txts)]
+
+		o2 := o
+		o2.Owner = txt
+		o2.Fins = append([]string{txt}, o.Fins...)
+		o2.Labels = append([][2]string{{"special", txt}}, o.Labels...)
+
+		idt := txt
+		if idt == "" {
+			idt = "empty-text"
+		}
+
+		r = vh.NewRes(vh.Key{NS: "n1", Typ: vh.IntType, ID: idt}, o2)
+		r.Metadata().Annotations().Set("special", txt)
 	}
 
 	if s.Size == "large" {
